@@ -2891,6 +2891,89 @@ pub mod verif_facade {
         }
     }
 
+    /// A message to encode. Names are given in the crate's presentation form (dots and
+    /// backslashes inside a label escaped), the record type follows from `rdata`, `class`
+    /// carries the cache-flush bit.
+    #[derive(Debug, Clone, PartialEq)]
+    pub struct MessageSpec {
+        pub flags: u16,
+        /// (name, type)
+        pub questions: Vec<(String, u16)>,
+        pub answers: Vec<RecordSpec>,
+        pub authorities: Vec<RecordSpec>,
+        pub additionals: Vec<RecordSpec>,
+    }
+
+    #[derive(Debug, Clone, PartialEq)]
+    pub struct RecordSpec {
+        pub name: String,
+        pub class: u16,
+        pub ttl: u32,
+        pub rdata: RDataView,
+    }
+
+    fn record_of(r: &RecordSpec) -> Option<DnsRecordBox> {
+        use super::{DnsRecordExt, RRType};
+        Some(match &r.rdata {
+            RDataView::Addr(ip) => {
+                let ty = if ip.is_ipv4() { RRType::A } else { RRType::AAAA };
+                DnsAddress::new(&r.name, ty, r.class, r.ttl, *ip, InterfaceId::default()).boxed()
+            }
+            RDataView::Ptr(alias) => {
+                DnsPointer::new(&r.name, RRType::PTR, r.class, r.ttl, alias.clone()).boxed()
+            }
+            RDataView::Srv {
+                priority,
+                weight,
+                port,
+                host,
+            } => DnsSrv::new(
+                &r.name,
+                r.class,
+                r.ttl,
+                *priority,
+                *weight,
+                *port,
+                host.clone(),
+            )
+            .boxed(),
+            RDataView::Txt(t) => DnsTxt::new(&r.name, r.class, r.ttl, t.clone()).boxed(),
+            RDataView::NSec {
+                next_domain,
+                type_bitmap,
+            } => DnsNSec::new(
+                &r.name,
+                r.class,
+                r.ttl,
+                next_domain.clone(),
+                type_bitmap.clone(),
+            )
+            .boxed(),
+            RDataView::HInfo { .. } | RDataView::Other => return None,
+        })
+    }
+
+    /// Encodes `spec` with the crate's encoder: one or more packets.
+    pub fn encode(spec: &MessageSpec) -> Vec<Vec<u8>> {
+        use super::{DnsOutgoing, RRType};
+        let mut out = DnsOutgoing::new(spec.flags);
+        for (name, ty) in &spec.questions {
+            if let Some(ty) = RRType::from_u16(*ty) {
+                out.add_question(name, ty);
+            }
+        }
+        for r in spec.answers.iter().filter_map(record_of) {
+            out.add_answer_box(r);
+        }
+        for r in spec.authorities.iter().filter_map(record_of) {
+            out.add_authority(r);
+        }
+        for r in spec.additionals.iter().filter_map(record_of) {
+            out.additionals.push(r);
+        }
+        out.to_data_on_wire()
+    }
+
     /// Decodes `data` with the crate's decoder.
     pub fn decode(data: Vec<u8>) -> Result<MessageView, String> {
         let msg = DnsIncoming::new(data, InterfaceId::default()).map_err(|e| e.to_string())?;
